@@ -132,15 +132,19 @@ def run(crate, harnesses, timeout_s=900, mem_gb=24, extra=(), unwind=None, jobs=
     cmd += list(extra)
     env = _cargo_env()
     t0 = now()
+    # own session: on timeout only THIS run's process tree is killed (concurrent checks keep their solvers)
+    proc = subprocess.Popen(cmd, cwd=cdir, env=env, stdout=subprocess.PIPE, stderr=subprocess.STDOUT, text=True,
+                            preexec_fn=_limit(mem_gb), start_new_session=True)
     try:
-        p = subprocess.run(cmd, cwd=cdir, env=env, stdout=subprocess.PIPE, stderr=subprocess.STDOUT, text=True,
-                           timeout=timeout_s, preexec_fn=_limit(mem_gb))
-        out = p.stdout
-    except subprocess.TimeoutExpired as e:
-        out = (e.stdout or b"").decode() if isinstance(e.stdout, bytes) else (e.stdout or "")
-        out += "\n[verif] TIMEOUT after %ds\n" % timeout_s
-        # make sure no cbmc survives
-        subprocess.run("kill $(pgrep -f 'cbmc|kani-compiler|goto-') 2>/dev/null", shell=True)
+        out, _ = proc.communicate(timeout=timeout_s)
+    except subprocess.TimeoutExpired:
+        import signal
+        try:
+            os.killpg(proc.pid, signal.SIGKILL)
+        except ProcessLookupError:
+            pass
+        out, _ = proc.communicate()
+        out = (out or "") + "\n[verif] TIMEOUT after %ds\n" % timeout_s
     dt = now() - t0
     if "error: could not compile" in out or "error[E" in out:
         raise Inconclusive("Kani harness crate `%s` does not compile:\n%s" % (crate, out[-2500:]))
